@@ -642,6 +642,29 @@ def observe(ctx, case, h, ref, slot, rank, lines, expect, bounds, filters, full)
             expect.append(("tab", name, m, dict(tab)))
             again.append((lambda name=name, m=m, f={"exact": exact_reciprocity, "strong": strong_reciprocity,
                                                     "weak": weak_reciprocity}[name]: f(h, m), dict(tab), tab))
+        if all(sorted(got[name]) == list(range(2, m + 1)) for name in ("exact", "strong", "weak")):
+            # the integer tables behind the ratios: tot[k], rec[k] = ratio * tot[k]; exact pairs up e and its reverse
+            nk = {k: sum(1 for e in E if esize(e) == k) for k in range(2, m + 1)}
+            recs, exactly = {}, True
+            for name in ("exact", "strong", "weak"):
+                recs[name] = [0, 0]
+                for k in range(2, m + 1):
+                    try:
+                        c = got[name][k] * nk[k]
+                        exactly = exactly and abs(c - round(c)) < 1e-6
+                        recs[name].append(int(round(c)))
+                    except Exception:
+                        exactly = False
+                        recs[name].append(0)
+            if exactly:
+                lines.append(f"ltabs {m}")
+                expect.append(("plain", hgxv.enc_lists([[0, 0] + [nk[k] for k in range(2, m + 1)], recs["exact"],
+                                                        recs["strong"], recs["weak"]])))
+                for k in range(2, m + 1):
+                    if recs["exact"][k] % 2:
+                        ctx.violation({**case, "m": m, "size": k},
+                                      f"exact_reciprocity[{k}] = {got['exact'][k]}: {recs['exact'][k]} of {nk[k]} hyperedges "
+                                      f"have their reverse present - they come in pairs, the number must be even")
         for k in range(2, m + 1):
             ex, st, wk = got["exact"].get(k, 0), got["strong"].get(k, 0), got["weak"].get(k, 0)
             if not (ex <= st <= wk):
